@@ -1,6 +1,8 @@
 import WhVerif.Util.Proto
 import WhVerif.Model.C08
 import WhVerif.Model.C08Conv
+import WhVerif.Model.C08Impl
+import WhVerif.Model.C08Glue
 import WhVerif.Spec.C08
 namespace WhVerif.Driver.C08
 open Lean WhVerif.Proto WhVerif.C08
@@ -189,6 +191,52 @@ def handle (op : String) (j : Json) : Option Json :=
       some (Json.mkObj [("post", table inst (fun c =>
         (fun sel => specNumer F W c sel, specNumer F W c (fun _ _ => true))))])
     | _, _ => some badInput
+  else if op == "c08.impl" then
+    -- the implementation-structured model (Gray walk, incremental cost computers, scatter-adds, scaling sums,
+    -- check-pointing with spacing "k" (default ⌊√n⌋ as coded)) in Float: likelihoods [ind][col][g], the
+    -- scaling_parameters the forward pass used, which columns were re-computed
+    match parseInst j, parseParams j with
+    | some inst, some p =>
+      if !inst.WF then some (Json.mkObj [("error", Json.str "not-WF")]) else
+      let k := (getNat? j "k").getD (Nat.sqrt inst.nCols)
+      let out := Impl.run inst p k
+      some (Json.mkObj [
+        ("lik", ofList (fun i => ofList (fun c => ofList (fun g => fbits (tblAt (out.lik.getD c #[]) (i * 3 + g))) [0, 1, 2])
+          (List.range inst.nCols)) (List.range inst.nInd)),
+        ("fwS", Json.arr (out.fwS.map fbits)),
+        ("recomputed", Json.arr (out.recomputed.map Json.bool))])
+    | _, _ => some badInput
+  else if op == "c08.implrat" then
+    -- the same over exact rationals; must be IDENTICAL to c08.fbrat (impl_posterior_eq_model), for every spacing k
+    match parseInst j with
+    | none => some badInput
+    | some inst =>
+      if !inst.WF then some (Json.mkObj [("error", Json.str "not-WF")]) else
+      match parseParamsRat inst j with
+      | none => some (Json.mkObj [("error", Json.str "not-exactly-representable")])
+      | some p =>
+        let k := (getNat? j "k").getD (Nat.sqrt inst.nCols)
+        let out := Impl.run inst p k
+        some (Json.mkObj [
+          ("lik", ofList (fun i => ofList (fun c => ofList (fun g => ratStr (tblAt (out.lik.getD c #[]) (i * 3 + g))) [0, 1, 2])
+            (List.range inst.nCols)) (List.range inst.nInd)),
+          ("zero_scaling", Json.bool (out.fwS.any (· == 0))),
+          ("recomputed", Json.arr (out.recomputed.map Json.bool))])
+  else if op == "c08.trans" then
+    -- `TransitionProbabilityComputer::get_prob_transmission` table as coded (Float) next to the high-level model's
+    match getNat? j "recomb", getNat? j "ntr" with
+    | some q, some nTr =>
+      let t := Impl.transTable (recombProb q) nTr
+      some (Json.mkObj [("trans", Json.arr (t.map fbits))])
+    | _, _ => some badInput
+  else if op == "c08.glue" then
+    -- run_genotype's prior subsetting: record positions, one opaque prior (list of naturals) per record, accessible positions
+    match getNatList? j "positions", (getList? j "priors").bind (fun l => l.mapM natList?), getNatList? j "acc" with
+    | some pos, some pri, some acc =>
+      match Glue.priorColumns pos pri acc with
+      | some cols => some (Json.mkObj [("cols", ofList (fun c => ofList ofNat c) cols)])
+      | none => some (Json.mkObj [("error", Json.str "KeyError")])
+    | _, _, _ => some badInput
   else if op == "c08.call" then
     match (getObj? j "gl").bind floatList?, (getObj? j "thr").bind ofBits? with
     | some [l0, l1, l2], some thr =>
